@@ -277,3 +277,127 @@ def findWitness (reach : Bool) (prog : List P) : Option (Nat × Nat × Nat × Na
     !(o.bad == e.bad && o.returned == e.returned && decide (o.s = e.s))
 
 end IsalVerif.SubmitC
+
+/-! ### the base family's prefix (`_<alg>_ctx_mgr_submit_base`) -/
+namespace IsalVerif.SubmitC
+open IsalVerif.HashMB
+
+/-- what the base-family prefix must compute -/
+def BasePrefixSpec (fl : Nat) (s : St) (o : Out) : Prop :=
+  o.bad = false ∧
+  (if fl / 4 ≠ 0 then o.returned = true ∧ o.s = { s with error := -1 }
+   else if s.status % 2 = 1 ∧ fl = 3 then o.returned = true ∧ o.s = { s with error := -2 }
+   else if s.status / 4 % 2 = 1 ∧ fl % 2 = 0 then o.returned = true ∧ o.s = { s with error := -3 }
+   else o.returned = false ∧ o.s = { s with error := 0 })
+
+theorem canonBase_run (fl ln : Nat) (hf : fl < 2^32) (s : St) (hst : s.status < 2^32) :
+    BasePrefixSpec fl s (run canonBase fl ln s) := by
+  have hfm : fl % 4294967296 = fl := Nat.mod_eq_of_lt (by simpa using hf)
+  have hsm : s.status % 4294967296 = s.status := Nat.mod_eq_of_lt (by simpa using hst)
+  have e1 : (X.and .flags (.lit 4294967292)).eval fl ln s = fl / 4 * 4 := by
+    simp only [X.eval, Nat.reducePow, Nat.reduceMod, hfm, and_fffc _ hf]
+  have e2 : (X.land (.and (.fld .status) (.lit 1)) (.eq .flags (.lit 3))).eval fl ln s =
+      b2n (s.status % 2 = 1 ∧ fl = 3) := by
+    simp only [X.eval, Nat.reducePow, Nat.reduceMod, hsm, hfm, and_one]
+    have : (s.status % 2 ≠ 0 ∧ b2n (fl = 3) ≠ 0) ↔ (s.status % 2 = 1 ∧ fl = 3) := by
+      unfold b2n; constructor
+      · rintro ⟨h1, h2⟩; split at h2 <;> simp_all <;> omega
+      · rintro ⟨h1, h2⟩; simp [h1, h2]
+    simp only [this]
+  have e3 : (X.land (.and (.fld .status) (.lit 4)) (.lnot (.and .flags (.lit 1)))).eval fl ln s =
+      b2n (s.status / 4 % 2 = 1 ∧ fl % 2 = 0) := by
+    simp only [X.eval, Nat.reducePow, Nat.reduceMod, hsm, hfm, and_four, and_one]
+    have : (s.status / 4 % 2 * 4 ≠ 0 ∧ b2n (fl % 2 = 0) ≠ 0) ↔ (s.status / 4 % 2 = 1 ∧ fl % 2 = 0) := by
+      unfold b2n; constructor
+      · rintro ⟨h1, h2⟩; split at h2 <;> simp_all <;> omega
+      · rintro ⟨h1, h2⟩; simp [h1, h2]
+    simp only [this]
+  have hret : ∀ (ps : List P) (o : Out), o.returned = true → ps.foldl (step fl ln) o = o := by
+    intro ps; induction ps with
+    | nil => intro o _; rfl
+    | cons p ps ih => intro o h; rw [List.foldl_cons]; have : step fl ln o p = o := by simp [step, h]
+                      rw [this]; exact ih o h
+  unfold run canonBase
+  have s1 : step fl ln { s := s } (.rej (.and .flags (.lit 4294967292)) (-1)) =
+      if fl / 4 * 4 ≠ 0 then ⟨{ s with error := -1 }, true, false⟩ else { s := s } := by
+    simp only [step, e1]; rfl
+  rw [List.foldl_cons, s1]
+  by_cases c1 : fl / 4 ≠ 0
+  · have : fl / 4 * 4 ≠ 0 := by omega
+    rw [if_pos this, hret _ _ rfl]; unfold BasePrefixSpec; rw [if_pos c1]
+    exact ⟨rfl, rfl, rfl⟩
+  · have c1' : ¬ (fl / 4 * 4 ≠ 0) := by omega
+    rw [if_neg c1']; unfold BasePrefixSpec; rw [if_neg c1]
+    have s2 : step fl ln { s := s } (.rej (.land (.and (.fld .status) (.lit 1)) (.eq .flags (.lit 3))) (-2)) =
+        if b2n (s.status % 2 = 1 ∧ fl = 3) ≠ 0 then ⟨{ s with error := -2 }, true, false⟩ else { s := s } := by
+      simp only [step, e2]; rfl
+    rw [List.foldl_cons, s2]
+    by_cases c2 : s.status % 2 = 1 ∧ fl = 3
+    · have : b2n (s.status % 2 = 1 ∧ fl = 3) ≠ 0 := by simp [b2n, c2]
+      rw [if_pos this, hret _ _ rfl, if_pos c2]
+      exact ⟨rfl, rfl, rfl⟩
+    · have c2' : ¬ (b2n (s.status % 2 = 1 ∧ fl = 3) ≠ 0) := by simp [b2n, c2]
+      rw [if_neg c2', if_neg c2]
+      have s3 : step fl ln { s := s }
+          (.rej (.land (.and (.fld .status) (.lit 4)) (.lnot (.and .flags (.lit 1)))) (-3)) =
+          if b2n (s.status / 4 % 2 = 1 ∧ fl % 2 = 0) ≠ 0 then ⟨{ s with error := -3 }, true, false⟩
+          else { s := s } := by
+        simp only [step, e3]; rfl
+      rw [List.foldl_cons, s3]
+      by_cases c3 : s.status / 4 % 2 = 1 ∧ fl % 2 = 0
+      · have : b2n (s.status / 4 % 2 = 1 ∧ fl % 2 = 0) ≠ 0 := by simp [b2n, c3]
+        rw [if_pos this, hret _ _ rfl, if_pos c3]
+        exact ⟨rfl, rfl, rfl⟩
+      · have c3' : ¬ (b2n (s.status / 4 % 2 = 1 ∧ fl % 2 = 0) ≠ 0) := by simp [b2n, c3]
+        rw [if_neg c3', if_neg c3]
+        simp only [List.foldl_cons, List.foldl_nil, step, Bool.or_self, Bool.false_eq_true, if_false]
+        exact ⟨by first | rfl | trivial, by first | rfl | trivial, by first | rfl | trivial⟩
+
+/-- the rejections of the base prefix are the model's `baseRejects` -/
+theorem base_prefix_refines {D : Type} (x : Ctx D) (flags ln : Nat) (b0 b1 : Bool) (hf : flags < 2^32) :
+    (run canonBase flags ln (absSt x b0 b1)).bad = false ∧
+    ((run canonBase flags ln (absSt x b0 b1)).returned = baseRejects x flags) ∧
+    (baseRejects x flags = false → (run canonBase flags ln (absSt x b0 b1)).s = absSt { x with error := 0 } b0 b1) ∧
+    (baseRejects x flags = true → ∃ code, code ≠ 0 ∧
+        (run canonBase flags ln (absSt x b0 b1)).s = absSt { x with error := code } b0 b1) := by
+  have hst : (absSt x b0 b1).status < 2^32 := by
+    simp only [absSt, stw]; cases x.processing <;> cases x.last <;> cases x.complete <;> decide
+  have h := canonBase_run flags ln hf (absSt x b0 b1) hst
+  unfold BasePrefixSpec at h
+  obtain ⟨hb, h⟩ := h
+  have p1 : (absSt x b0 b1).status % 2 = 1 ↔ x.processing = true := by
+    simp only [absSt, stw]; cases x.processing <;> cases x.last <;> cases x.complete <;> decide
+  have p2 : (absSt x b0 b1).status / 4 % 2 = 1 ↔ x.complete = true := by
+    simp only [absSt, stw]; cases x.processing <;> cases x.last <;> cases x.complete <;> decide
+  refine ⟨hb, ?_⟩
+  unfold baseRejects
+  by_cases c1 : flags / 4 ≠ 0
+  · rw [if_pos c1] at h
+    refine ⟨by rw [h.1]; simp [c1], by simp [c1], fun _ => ⟨-1, by decide, h.2⟩⟩
+  · rw [if_neg c1] at h
+    have c1' : flags / 4 = 0 := by omega
+    by_cases c2 : (absSt x b0 b1).status % 2 = 1 ∧ flags = 3
+    · rw [if_pos c2] at h
+      have hp := p1.mp c2.1
+      refine ⟨by rw [h.1]; simp [hp, c2.2], by simp [hp, c2.2], fun _ => ⟨-2, by decide, h.2⟩⟩
+    · rw [if_neg c2] at h
+      have c2' : ¬ (x.processing = true ∧ flags = 3) := fun hh => c2 ⟨p1.mpr hh.1, hh.2⟩
+      by_cases c3 : (absSt x b0 b1).status / 4 % 2 = 1 ∧ flags % 2 = 0
+      · rw [if_pos c3] at h
+        have hc := p2.mp c3.1
+        refine ⟨by rw [h.1]; simp [hc, c3.2], by simp [hc, c3.2], fun _ => ⟨-3, by decide, h.2⟩⟩
+      · rw [if_neg c3] at h
+        have c3' : ¬ (x.complete = true ∧ flags % 2 = 0) := fun hh => c3 ⟨p2.mpr hh.1, hh.2⟩
+        have hA : (x.processing && decide (flags = 3)) = false := by
+          cases hp : x.processing with
+          | false => rfl
+          | true => simp only [Bool.true_and, decide_eq_false_iff_not]; intro hf3; exact c2' ⟨hp, hf3⟩
+        have hBc : (x.complete && decide (flags % 2 = 0)) = false := by
+          cases hc : x.complete with
+          | false => rfl
+          | true => simp only [Bool.true_and, decide_eq_false_iff_not]; intro hf2; exact c3' ⟨hc, hf2⟩
+        have hrej : (decide (flags / 4 ≠ 0) || (x.processing && decide (flags = 3)) || (x.complete && decide (flags % 2 = 0))) = false := by
+          rw [hA, hBc]; simp [c1']
+        refine ⟨by rw [h.1, hrej], fun _ => h.2, fun hh => by rw [hrej] at hh; cases hh⟩
+
+end IsalVerif.SubmitC
